@@ -64,7 +64,10 @@ let () = each_line (fun line ->
     let evs = List.map parse_event (List.filter (fun s -> s <> "") (split_on ',' ef)) in
     let (tr, fin) = run ports world0 evs in
     let recs = List.map show_rec tr in
+    (* the side condition of the theorems, evaluated by the extracted MidiSpec.nocross on the
+       model's own records; the plug-in's canon() sets the Python value beside it *)
+    let nc = if nocross evs tr then "#N=1" else "#N=0" in
     (match fin with
-     | Some w -> print_endline (String.concat ";" recs ^ "|" ^ show_state (List.length ports) w)
-     | None -> print_endline (String.concat ";" (recs @ ["CRASH"])))
+     | Some w -> print_endline (String.concat ";" recs ^ "|" ^ show_state (List.length ports) w ^ nc)
+     | None -> print_endline (String.concat ";" (recs @ ["CRASH"]) ^ nc))
   | _ -> print_endline "BADCASE")
